@@ -22,6 +22,8 @@ pub fn ps(pieces: &[P]) -> String {
 
 pub struct FeOut {
     pub out: Vec<u8>,
+    /// exported chaining value after every piece (block-level objects and keystream cores only)
+    pub states: Vec<Vec<u8>>,
     /// exported chaining value at the end (types with `IvState`), when the pieces end on a block boundary
     pub state: Option<Vec<u8>>,
 }
@@ -72,6 +74,7 @@ pub fn fe_bm<'a>(cfg: &'a Cfg, d: &'a BlockModeDesc) -> Fe<'a> {
             let mut obj = rec::bm(cfg, d, key, iv);
             let mut off = 0;
             let mut out = Vec::with_capacity(data.len());
+            let mut states = vec![];
             for pc in pieces {
                 let o0 = off;
                 let inp = take(data, &mut off, pc.len);
@@ -83,9 +86,10 @@ pub fn fe_bm<'a>(cfg: &'a Cfg, d: &'a BlockModeDesc) -> Fe<'a> {
                     return fail(format!("equal_length_call_refused/{}-{}", d.mode, d.dir.s()), format!("{} {}-byte call ({}) with equal lengths returned Err", d.ty, pc.len, pc.kind.s()));
                 }
                 out.extend(ob);
+                states.push(obj.iv_state());
             }
-            let state = Some(obj.iv_state());
-            Ok(FeOut { out, state })
+            let state = Some(states.last().cloned().unwrap_or_else(|| obj.iv_state()));
+            Ok(FeOut { out, states, state })
         }),
     }
 }
@@ -104,7 +108,7 @@ pub fn fe_oneshot<'a>(cfg: &'a Cfg, d: &'a BlockModeDesc) -> Fe<'a> {
             let obj = rec::bm(cfg, d, key, iv);
             let mut ob = outbuf(pieces[0].kind, data, prefill, 0);
             match obj.oneshot(pieces[0].kind, data, &mut ob) {
-                Some(Ok(())) => Ok(FeOut { out: ob, state: None }),
+                Some(Ok(())) => Ok(FeOut { out: ob, states: vec![], state: None }),
                 Some(Err(())) => fail(format!("equal_length_call_refused/{}-{}", d.mode, d.dir.s()), format!("{} one-shot ({}) with equal lengths returned Err", d.ty, pieces[0].kind.s())),
                 None => panic!("harness: {} is not an AsyncStreamCipher", d.ty),
             }
@@ -131,7 +135,7 @@ pub fn fe_buf<'a>(cfg: &'a Cfg, d: &'a BufCfbDesc) -> Fe<'a> {
                 obj.process(&mut ob);
                 out.extend(ob);
             }
-            Ok(FeOut { out, state: None })
+            Ok(FeOut { out, states: vec![], state: None })
         }),
     }
 }
@@ -151,6 +155,7 @@ pub fn fe_core<'a>(cfg: &'a Cfg, d: &'a CoreDesc, write: bool) -> Fe<'a> {
             let mut obj = rec::core(cfg, d, key, iv);
             let mut off = 0;
             let mut out = Vec::with_capacity(data.len());
+            let mut states = vec![];
             for pc in pieces {
                 let o0 = off;
                 let inp = take(data, &mut off, pc.len);
@@ -172,9 +177,10 @@ pub fn fe_core<'a>(cfg: &'a Cfg, d: &'a CoreDesc, write: bool) -> Fe<'a> {
                     }
                     out.extend(ob);
                 }
+                states.push(obj.iv_state());
             }
-            let state = Some(obj.iv_state());
-            Ok(FeOut { out, state })
+            let state = Some(states.last().cloned().unwrap_or_else(|| obj.iv_state()));
+            Ok(FeOut { out, states, state })
         }),
     }
 }
@@ -203,7 +209,7 @@ pub fn fe_stream<'a>(cfg: &'a Cfg, d: &'a CoreDesc) -> Fe<'a> {
                 out.extend(ob);
             }
             let state = if data.len() % cfg.bs == 0 { Some(obj.core_iv_state()) } else { None };
-            Ok(FeOut { out, state })
+            Ok(FeOut { out, states: vec![], state })
         }),
     }
 }
@@ -221,7 +227,7 @@ pub fn fe_cts<'a>(cfg: &'a Cfg, d: &'a CtsDesc, dir: Dir) -> Fe<'a> {
             assert!(pieces.len() == 1 && pieces[0].len == data.len(), "harness: one-shot takes one piece");
             let mut ob = outbuf(pieces[0].kind, data, prefill, 0);
             match rec::cts(cfg, d, Ctor::Inner, false, dir, pieces[0].kind, key, iv, data, &mut ob).expect("harness: ctor") {
-                Ok(()) => Ok(FeOut { out: ob, state: None }),
+                Ok(()) => Ok(FeOut { out: ob, states: vec![], state: None }),
                 Err(()) => fail(format!("accepted_length_refused/{}", d.name), format!("{} {}({}) of {} bytes returned Err", d.ty, dir.s(), pieces[0].kind.s(), data.len())),
             }
         }),
